@@ -202,6 +202,26 @@ theorem applyConfig_idempotent (nm : Naming) (a a' : Attr) (es : List Entry) (h 
           exact hax ⟨p.2, by rw [← hpx]; exact hp⟩
         exact applyPairs_untouched ps (applyPairs a ps) x hun
 
+/-- a configuration none of whose entries states a priority (only sequential flags, say) leaves every priority — hence
+    every compound priority — as it was -/
+theorem applyConfig_no_priority_stated (nm : Naming) (a a' : Attr) (es : List Entry) (h : applyConfig nm a es = .ok a')
+    (hnone : ∀ e ∈ es, e.prio = none) : ∀ x, a'.prio x = a.prio x := by
+  obtain ⟨haddr, hother⟩ := applyConfig_spec nm a a' es h
+  intro x
+  by_cases hx : ∃ e ∈ es, ∃ ns, resolveAlias nm e.alias = some ns ∧ x ∈ ns
+  · obtain ⟨e, he, ns, hns, hxn⟩ := hx
+    have := (haddr x e he ⟨ns, hns, hxn⟩).1
+    rw [this, hnone e he]; rfl
+  · apply (hother x ?_).1
+    intro e he ns hns hxn
+    exact hx ⟨e, he, ns, hns, hxn⟩
+
+theorem applyConfig_no_priority_stated_cp (g : G) (nm : Naming) (a a' : Attr) (es : List Entry)
+    (h : applyConfig nm a es = .ok a') (hnone : ∀ e ∈ es, e.prio = none) (x : Node) :
+    cpAll g a'.prio x = cpAll g a.prio x := by
+  have : a'.prio = a.prio := funext (applyConfig_no_priority_stated nm a a' es h hnone)
+  rw [this]
+
 /-! ### malformed entries, and what a refusal leaves behind
 
     A configuration as the user WRITES it may hold entries that are not well formed (a priority that is not an int, an
